@@ -76,7 +76,7 @@ def session(rng):
         elif r == 16:
             ch = chan(rng)
             nm = rng.choice([b"a", b"b1", b"zz", b"abc", b"", b"a!"])
-            s.link(c, nm, rng.choice(["KA", "KW", "KR", "KF"]), ch, rng.randrange(2) == 1)
+            s.link(c, nm, rng.choice(["KA", "KW", "KR", "KF", "KX", "KX"]), ch, rng.randrange(2) == 1)
         elif r == 17:
             s.pubalias(c, rng.choice([b"a", b"b1", b"zz", b"q"]), rbytes(rng, 2))
         elif r == 18:
